@@ -309,7 +309,8 @@ fn advance_round_step(region: u8) {
     match region {
         0 => kani::assume(!dublin6 && cfg.initial_sequence.0 <= 63999),
         1 => kani::assume(!dublin6 && cfg.initial_sequence.0 > 63999),
-        _ => kani::assume(dublin6),
+        2 => kani::assume(dublin6),
+        _ => {} // C16: every accepted configuration, INV only (no separation claim)
     }
     let mut st = any_state(cfg);
     kani::assume(inv_scalar(&st));
@@ -324,7 +325,9 @@ fn advance_round_step(region: u8) {
     assert!(st.sequence == seq0 || u32::from(seq0.0) >= max_seq(&cfg), "restart only at the maximum");
     assert!(inv_scalar(&st), "INV preserved by advance_round");
     assert!(st.probes().is_empty());
-    assert!(!st.in_round(Sequence(prev)), "previous round's sequence is not valid in the new round");
+    if region <= 2 {
+        assert!(!st.in_round(Sequence(prev)), "previous round's sequence is not valid in the new round");
+    }
     kani::cover!(st.sequence == cfg.initial_sequence && seq0 != cfg.initial_sequence, "wrap");
     kani::cover!(st.sequence == seq0, "no wrap");
     std::mem::forget(st);
@@ -351,6 +354,19 @@ fn c07_advance_round_step_region_f7() {
 #[kani::stub(std::time::SystemTime::now, clock::now_stub)]
 fn c07_advance_round_step_region_f8() {
     advance_round_step(2);
+}
+
+/// C16 ("every accepted configuration can execute rounds without panicking", for any number of
+/// rounds): the round-to-round step keeps INV for EVERY builder-accepted configuration, both
+/// maximum-sequence regimes and all initial sequences in one query.  INV is what the per-round
+/// steps (`c07_next_probe_*`, `c06_send_step_*`, `c07_v6_dublin_payload_slice_in_range`) assume
+/// to exclude out-of-range indexing, so this closes the induction over rounds for C16 without
+/// the separation claim of C07 / C03 (whose exceptions are the known findings F7 / F8).
+#[kani::proof]
+#[kani::unwind(3)]
+#[kani::stub(std::time::SystemTime::now, clock::now_stub)]
+fn c16_advance_round_keeps_inv_all_accepted() {
+    advance_round_step(3);
 }
 
 /// `in_round` is exactly the 512-wide window and never overflows; `round_has_capacity` is
